@@ -4,7 +4,7 @@ import json, subprocess
 props = [json.loads(l) for l in open('/verif/properties.jsonl')]
 ids = [p['id'] for p in props]
 
-HOOK_COMMITS = ["f440103", "32328cf", "9e3b722", "c3bcd33"]
+HOOK_COMMITS = ["f440103", "32328cf", "9e3b722", "c3bcd33", "9234b86"]
 
 # property -> (level text, level note, technique, design_ref)
 SIM = "deterministic simulation with fault injection"
